@@ -314,7 +314,116 @@ theorem pairUp_flat (ps : List (Val × Val)) : pairUp (flat ps) = some ps := by
   | nil => rfl
   | cons p rest ih => obtain ⟨k, v⟩ := p; simp [flat, pairUp, ih]
 
-theorem sim_expr_step {n} (ihE : SimExpr n) (ihL : SimList n) (ihA : SimArgs n) (ihP : SimPairs n) :
+/-- the final comparison of a chain (and any single comparison operator) -/
+theorem step_cmpInstrs {ctx C op a b r} {s : VmState} {st : List Val} {base : Nat}
+    (hAt : At C base (cmpInstrs op)) (hpc : s.pc = base) (hs : s.stack = b :: a :: st)
+    (hr : compareOp op a b = .ok r) :
+    Reach ctx C s { s with pc := base + (cmpInstrs op).length, stack := .bool r :: st } := by
+  cases op
+  case notin =>
+    simp only [cmpInstrs] at hAt ⊢
+    simp only [compareOp] at hr
+    cases hc : contains b a with
+    | error e => simp [hc, Except.map] at hr
+    | ok c =>
+      have hrc : r = !c := by
+        rw [hc] at hr; simp only [Except.map, Except.ok.injEq] at hr; rw [← hr]
+      subst hrc
+      refine Reach.cons (i := .isIn) (by rw [hpc]; exact hAt.head)
+        (s' := { s with pc := base + 1, stack := .bool c :: st }) (by simp [MJ.Vm.step, hs, hc, Except.map, hpc]) ?_
+      exact Reach.one' (i := .not) _ hAt.tail.head rfl (by simp [MJ.Vm.step, truthy])
+  all_goals
+    simp only [cmpInstrs] at hAt ⊢
+    refine Reach.one (by rw [hpc]; exact hAt.head) ?_
+    first
+    | (simp [MJ.Vm.step, binCmp, hs, hr, Except.map, hpc]; done)
+    | (simp only [compareOp] at hr; simp [MJ.Vm.step, hs, hr, Except.map, hpc])
+
+def SimChain (n : Nat) : Prop :=
+  ∀ ops ctx heap stack a v, evalChain n ctx heap stack a ops = .ok v → simpleChain ops = true → ops ≠ [] →
+    ∀ C base aux cs (s : VmState) (st : List Val), At C base (relChain ops base aux cs).1 →
+      (relChain ops base aux cs).2.oof = false →
+      C[base + (relChain ops base aux cs).1.length]? = some (.jump (cs + 2)) →
+      At C cs [Instr.swap, Instr.discardTop] → s.pc = base → s.stack = a :: st →
+      EnvRel ctx heap stack s.frames →
+      Reach ctx C s { s with pc := cs + 2, stack := v :: st }
+
+theorem oof_false_of_relChain {ops b a cs} (h : (relChain ops b a cs).2.oof = false) : a.oof = false := by
+  cases ha : a.oof with
+  | false => rfl
+  | true => rw [relChain_oof_mono ops b a cs ha] at h; cases h
+
+theorem sim_chain_step {n} (ihE : SimExpr n) (ihC : SimChain n) : SimChain (n + 1) := by
+  intro ops ctx heap stack a v hev hs hne C base aux cs s st hAt hoof hJ hCl hpc hst henv
+  match ops, hne with
+  | [(op, e)], _ =>
+    have hse : simpleExpr e = true := by simpa [simpleChain] using hs
+    simp only [evalChain, bind, Except.bind] at hev
+    split at hev
+    · simp at hev
+    · rename_i b hb
+      split at hev
+      · simp at hev
+      · rename_i r hr
+        simp only [relChain] at hAt hoof hJ
+        have hv : v = .bool r := by
+          cases r with
+          | false => simp at hev; exact hev.symm
+          | true =>
+            simp at hev
+            cases n with
+            | zero => simp [evalChain] at hev
+            | succ m => simp [evalChain] at hev; exact hev.symm
+        subst hv
+        have r1 := ihE e ctx heap stack b hb hse C base aux s hAt.left hoof hpc henv
+        have r2 := step_cmpInstrs (ctx := ctx) (s := { s with pc := base + (relExpr e base aux).1.length, stack := b :: s.stack })
+          (st := st) hAt.right rfl (by simp [hst]) hr
+        refine r1.trans (r2.trans (Reach.one' (i := .jump (cs + 2)) _ hJ (by simp [Nat.add_assoc]) (by simp [MJ.Vm.step])))
+  | (op, e) :: o2 :: rest, _ =>
+    have hs' : simpleExpr e = true ∧ simpleChain (o2 :: rest) = true := by simpa [simpleChain] using hs
+    simp only [evalChain, bind, Except.bind] at hev
+    split at hev
+    · simp at hev
+    · rename_i b hb
+      split at hev
+      · simp at hev
+      · rename_i r hr
+        simp only [relChain] at hAt hoof hJ
+        have ho1 := oof_false_of_relChain hoof
+        have r1 := ihE e ctx heap stack b hb hs'.1 C base aux s hAt.left.left ho1 hpc henv
+        have hcap := hAt.left.right.head
+        have hjf := hAt.left.right.tail.head
+        -- CompareAndPreserve
+        have r2 : Reach ctx C { s with pc := base + (relExpr e base aux).1.length, stack := b :: s.stack }
+            { s with pc := base + (relExpr e base aux).1.length + 1, stack := .bool r :: b :: st } :=
+          Reach.one' (i := .compareAndPreserve op) _ hcap rfl (by simp [MJ.Vm.step, hst, hr, Except.map])
+        cases r with
+        | true =>
+          simp at hev
+          have r3 : Reach ctx C { s with pc := base + (relExpr e base aux).1.length + 1, stack := .bool true :: b :: st }
+              { s with pc := base + (relExpr e base aux).1.length + 2, stack := b :: st } :=
+            Reach.one' (i := .jumpIfFalseOrPop cs) _ hjf rfl (by simp [MJ.Vm.step, truthy])
+          have r4 := ihC (o2 :: rest) ctx heap stack b v hev hs'.2 (by simp) C (base + (relExpr e base aux).1.length + 2)
+            (relExpr e base aux).2 cs { s with pc := base + (relExpr e base aux).1.length + 2, stack := b :: st } st
+            (At.cast hAt.right (by simp [Nat.add_assoc])) hoof
+            (by rw [← hJ]; congr 1; simp only [List.length_append, List.length_cons, List.length_nil]; omega)
+            hCl rfl rfl henv
+          exact r1.trans (r2.trans (r3.trans r4))
+        | false =>
+          simp at hev; subst hev
+          have r3 : Reach ctx C { s with pc := base + (relExpr e base aux).1.length + 1, stack := .bool false :: b :: st }
+              { s with pc := cs, stack := .bool false :: b :: st } :=
+            Reach.one' (i := .jumpIfFalseOrPop cs) _ hjf rfl (by simp [MJ.Vm.step, truthy])
+          have r4 : Reach ctx C { s with pc := cs, stack := .bool false :: b :: st }
+              { s with pc := cs + 1, stack := b :: .bool false :: st } :=
+            Reach.one' (i := .swap) _ hCl.head rfl (by simp [MJ.Vm.step])
+          have r5 : Reach ctx C { s with pc := cs + 1, stack := b :: .bool false :: st }
+              { s with pc := cs + 2, stack := .bool false :: st } :=
+            Reach.one' (i := .discardTop) _ hCl.tail.head rfl (by simp [MJ.Vm.step])
+          exact r1.trans (r2.trans (r3.trans (r4.trans r5)))
+
+theorem sim_expr_step {n} (ihE : SimExpr n) (ihL : SimList n) (ihA : SimArgs n) (ihP : SimPairs n)
+    (ihC : SimChain n) :
     SimExpr (n + 1) := by
   intro e ctx heap stack v hev hs C base a s hAt hoof hpc henv
   cases hc : asConst e with
@@ -404,7 +513,44 @@ theorem sim_expr_step {n} (ihE : SimExpr n) (ihL : SimList n) (ihA : SimArgs n) 
               refine r1.trans (r2.trans (Reach.one (i := binInstr op) ?_ ?_))
               · have := hAt.right.head; simpa [Nat.add_assoc] using this
               · rw [step_binInstr hand hor rfl hev]; vmeq
-    | cmp x ops => simp [simpleExpr] at hs
+    | cmp x ops =>
+      have hs' : (2 ≤ ops.length ∧ simpleExpr x = true) ∧ simpleChain ops = true := by simpa [simpleExpr] using hs
+      have hrel : relExpr (.cmp x ops) base a =
+          ((relExpr x base a).1 ++
+            (relChain ops (base + (relExpr x base a).1.length) (relExpr x base a).2
+              (base + (relExpr x base a).1.length +
+                (relChain ops (base + (relExpr x base a).1.length) (relExpr x base a).2 0).1.length + 1)).1 ++
+            [.jump (base + (relExpr x base a).1.length +
+                (relChain ops (base + (relExpr x base a).1.length) (relExpr x base a).2 0).1.length + 1 + 2), .swap, .discardTop],
+           (relChain ops (base + (relExpr x base a).1.length) (relExpr x base a).2
+              (base + (relExpr x base a).1.length +
+                (relChain ops (base + (relExpr x base a).1.length) (relExpr x base a).2 0).1.length + 1)).2) := by
+        conv => lhs; unfold relExpr
+        simp [hc]
+      rw [hrel] at hAt hoof ⊢
+      simp only [evalExpr, bind, Except.bind] at hev
+      split at hev
+      · simp at hev
+      · rename_i xv hx
+        have hlen := (relChain_cs ops (base + (relExpr x base a).1.length) (relExpr x base a).2
+          (base + (relExpr x base a).1.length +
+            (relChain ops (base + (relExpr x base a).1.length) (relExpr x base a).2 0).1.length + 1) 0).1
+        have ho1 := oof_false_of_relChain hoof
+        have r1 := ihE x ctx heap stack xv hx hs'.1.2 C base a s hAt.left.left ho1 hpc henv
+        have hne : ops ≠ [] := by intro h0; rw [h0] at hs'; simp at hs'
+        have r2 := ihC ops ctx heap stack xv v hev hs'.2 hne C (base + (relExpr x base a).1.length) (relExpr x base a).2
+          (base + (relExpr x base a).1.length +
+            (relChain ops (base + (relExpr x base a).1.length) (relExpr x base a).2 0).1.length + 1)
+          { s with pc := base + (relExpr x base a).1.length, stack := xv :: s.stack } s.stack
+          hAt.left.right hoof
+          (by have := hAt.right.head
+              refine Eq.trans (congrArg (fun k => C[k]?) ?_) this
+              simp only [List.length_append]; omega)
+          (At.cast hAt.right.tail (by simp only [List.length_append]; omega))
+          rfl rfl henv
+        refine (r1.trans r2).cast rfl ?_
+        simp only [List.length_append, List.length_cons, List.length_nil]
+        congr 1; omega
     | ife c t f =>
       simp only [evalExpr, bind, Except.bind] at hev
       split at hev
@@ -595,18 +741,20 @@ theorem sim_expr_step {n} (ihE : SimExpr n) (ihL : SimList n) (ihA : SimArgs n) 
           simp [MJ.Vm.step, hpop, buildMap, pairUp_flat, hm, Except.map]; vmeq
 
 
-theorem sim_all : ∀ n, SimExpr n ∧ SimList n ∧ SimArgs n ∧ SimPairs n := by
+theorem sim_all : ∀ n, SimExpr n ∧ SimList n ∧ SimArgs n ∧ SimPairs n ∧ SimChain n := by
   intro n
   induction n with
   | zero =>
-    refine ⟨?_, ?_, ?_, ?_⟩
+    refine ⟨?_, ?_, ?_, ?_, ?_⟩
     · intro e ctx heap stack v h; simp [evalExpr] at h
     · intro es ctx heap stack vs h; simp [evalList] at h
     · intro args ctx heap stack as h; simp [evalArgs] at h
     · intro kvs ctx heap stack ps h; simp [evalPairs] at h
+    · intro ops ctx heap stack a v h; simp [evalChain] at h
   | succ n ih =>
-    obtain ⟨hE, hL, hA, hP⟩ := ih
-    exact ⟨sim_expr_step hE hL hA hP, sim_list_step hE hL, sim_args_step hE hA, sim_pairs_step hE hP⟩
+    obtain ⟨hE, hL, hA, hP, hC⟩ := ih
+    exact ⟨sim_expr_step hE hL hA hP hC, sim_list_step hE hL, sim_args_step hE hA, sim_pairs_step hE hP,
+      sim_chain_step hE hC⟩
 
 /-- **Expressions compile correctly** (relative code): if the reference semantics evaluates `e` to
 `v`, the VM executing the code of `e` (placed anywhere in a larger code `C`) pushes `v` and
